@@ -1,5 +1,5 @@
 CONSTANTS
-  NSSet = {0, 1, 2, 3}
+  NSSet = {0, 1, 2}
   SearchSet <- MCQ_Search
   NDotsSet = {1}
   DotsSet = {0}
